@@ -88,3 +88,62 @@ def c15_le_nan_bound(case, detail):
         except ValueError:
             pass
     return False
+
+
+# ---- C12 -------------------------------------------------------------------------------------------------
+def _c12_families(case):
+    return case.get('fams', []) if isinstance(case, dict) else []
+
+
+def _c12_detail(detail, tag):
+    return isinstance(detail, str) and (detail == 'correspondence' or detail.startswith('known-class %s:' % tag))
+
+
+def c12_negative_first_bound(case, detail):
+    """C12 / F9: the history declares a Histogram whose first bucket bound is negative and the only samples on which the
+    two collections differ are its _sum series (present in the multiprocess collection only)."""
+    from . import c12
+    return _c12_detail(detail, 'negsum') and any('negsum' in c12.finding_classes(fd) for fd in _c12_families(case))
+
+
+def c12_equal_bounds(case, detail):
+    """C12 / F10: the history declares a Histogram with two numerically equal bucket bounds (1, 1 / -0.0, 0.0 / inf, inf)
+    and the two collections differ only in _bucket samples of that histogram."""
+    from . import c12
+    return _c12_detail(detail, 'dupbound') and any('dupbound' in c12.finding_classes(fd) for fd in _c12_families(case))
+
+
+def c12_pid_label(case, detail):
+    """C12: the history declares a Gauge with a label called pid; the collections differ only in samples of that gauge."""
+    from . import c12
+    return _c12_detail(detail, 'pidlabel') and any('pidlabel' in c12.finding_classes(fd) for fd in _c12_families(case))
+
+
+def c12_remove_clear(case, detail):
+    """C12: the history calls remove()/clear() and the collections differ only in samples of a family from which a child
+    was removed (multiprocess mode does not implement removal)."""
+    return _c12_detail(detail, 'remove') and any(op[0] in ('remove', 'clear') for op in case.get('ops', []))
+
+
+def c04b_same_instant_two_classes(case, detail):
+    """C04 second direction: one series appears twice, consecutively, at the same instant, once with a Timestamp-class
+    timestamp (digits[.digits]) and once with a float-class one (1e0, .0, 0.).  The duplicate suppression compares
+    timestamps with != (class-sensitive) and keeps both; exposed, both read as Timestamp and the second is dropped."""
+    if not isinstance(case, dict) or 'differs' not in str(detail):
+        return False
+    try:
+        from prometheus_client.openmetrics.parser import text_string_to_metric_families
+        from prometheus_client.samples import Timestamp
+        fams = list(text_string_to_metric_families(case.get('doc', '')))
+    except Exception:
+        return False
+    for f in fams:
+        for a, b in zip(f.samples, f.samples[1:]):
+            if a.name == b.name and a.labels == b.labels and a.timestamp is not None and b.timestamp is not None \
+                    and isinstance(a.timestamp, Timestamp) != isinstance(b.timestamp, Timestamp):
+                try:
+                    if float(a.timestamp) == float(b.timestamp):
+                        return True
+                except OverflowError:
+                    pass
+    return False
